@@ -34,6 +34,7 @@ import (
 	"bufio"
 	"bytes"
 	"fmt"
+	"math"
 	mrand "math/rand"
 	"os"
 	"sort"
@@ -545,7 +546,8 @@ func uViewTerm(tp *wire.TransportParameters) string {
 	for _, n := range nums {
 		s = append(s, u.Z(n))
 	}
-	return u.App("View", append(s, u.B(tp.DisableActiveMigration), u.ZU(tp.ActiveConnectionIDLimit), "(hx "+u.Hex(tp.InitialSourceConnectionID.Bytes())+")", u.Z(int64(tp.MaxDatagramFrameSize)))...)
+	return u.App("View", append(s, u.B(tp.DisableActiveMigration), u.ZU(tp.ActiveConnectionIDLimit), "(hx "+u.Hex(tp.InitialSourceConnectionID.Bytes())+")", u.Z(int64(tp.MaxDatagramFrameSize)),
+		u.Z(int64(tp.MaxUDPPayloadSize)), u.Z(int64(tp.AckDelayExponent)))...)
 }
 
 // uPopulate runs PopulateFromUQUIC, reporting a panic as ok=false.
@@ -559,15 +561,11 @@ func uPopulate(tp *wire.TransportParameters, l tls.TransportParameters) (ok bool
 	return true, ""
 }
 
-// uExpectPanic: the two documented reasons: a parameter with a typed id that is not of that
-// type (non-comma-ok assertion), or a typed initial_source_connection_id longer than 20 bytes.
+// uExpectPanic: the one documented reason since /repo 7263726 (integer parameters are read by id
+// from their wire value, no type assertion): a typed initial_source_connection_id longer than 20 bytes.
 func uExpectPanic(ps []uPar, l tls.TransportParameters) bool {
 	for _, tp := range l {
 		switch tp.ID() {
-		case 0x1, 0x4, 0x5, 0x6, 0x7, 0x8, 0x9, 0xb, 0xe, 0x20:
-			if !uTyped(ps, tp) {
-				return true
-			}
 		case 0xf:
 			if uTyped(ps, tp) && len(tp.Value()) > 20 {
 				return true
@@ -577,21 +575,23 @@ func uExpectPanic(ps []uPar, l tls.TransportParameters) bool {
 	return false
 }
 
-// uCheckView: typed read-back, restated: the last typed occurrence of each id wins.
+// uCheckView: the connection's record, restated (semantics of /repo 7263726): what a peer reads
+// from the bytes -- for every integer parameter the LAST entry with that id whose value is exactly
+// one varint, whatever Go type carries it; the protocol default where the list has none
+// (max_ack_delay 25 ms, active_connection_id_limit 2, ack_delay_exponent 3,
+// max_datagram_frame_size "invalid", max_udp_payload_size maximal; zero for the others);
+// durations saturate at MaxInt64, ack_delay_exponent at 255.
 func uCheckView(o *uOut, tp *wire.TransportParameters, pre []fpParam, typed []bool, scid []byte, detail string) {
 	last := map[uint64]uint64{}
 	has := map[uint64]bool{}
 	wantSCID := scid
 	for i, p := range pre {
-		if p.ID == 0xc { // no type assertion in the code: any parameter with this id counts
+		if p.ID == 0xc {
 			has[0xc] = true
 			continue
 		}
-		if !typed[i] {
-			continue
-		}
 		if p.ID == 0xf {
-			if len(p.Val) > 0 {
+			if typed[i] && len(p.Val) > 0 {
 				wantSCID = p.Val
 			}
 			continue
@@ -600,25 +600,38 @@ func uCheckView(o *uOut, tp *wire.TransportParameters, pre []fpParam, typed []bo
 			last[p.ID], has[p.ID] = v, true
 		}
 	}
-	chk := func(name string, id uint64, got int64, scale int64) {
-		want := int64(0)
+	chk := func(name string, id uint64, got int64, scale int64, def int64) {
+		want := def
 		if has[id] {
-			want = int64(last[id]) * scale // wraps like the Go code's Duration arithmetic
+			v := last[id]
+			if scale > 1 && v > uint64(math.MaxInt64/scale) {
+				want = math.MaxInt64
+			} else {
+				want = int64(v) * scale
+			}
 		}
 		if got != want {
-			o.fail("uspec/populate-view", fmt.Sprintf("%s = %d, the list's last typed parameter %#x says %d", name, got, id, want), detail)
+			o.fail("uspec/populate-view", fmt.Sprintf("%s = %d, the list (last single-varint parameter %#x, else the default) says %d", name, got, id, want), detail)
 		}
 	}
-	chk("MaxIdleTimeout", 0x1, int64(tp.MaxIdleTimeout), int64(time.Millisecond))
-	chk("InitialMaxData", 0x4, int64(tp.InitialMaxData), 1)
-	chk("InitialMaxStreamDataBidiLocal", 0x5, int64(tp.InitialMaxStreamDataBidiLocal), 1)
-	chk("InitialMaxStreamDataBidiRemote", 0x6, int64(tp.InitialMaxStreamDataBidiRemote), 1)
-	chk("InitialMaxStreamDataUni", 0x7, int64(tp.InitialMaxStreamDataUni), 1)
-	chk("MaxBidiStreamNum", 0x8, int64(tp.MaxBidiStreamNum), 1)
-	chk("MaxUniStreamNum", 0x9, int64(tp.MaxUniStreamNum), 1)
-	chk("MaxAckDelay", 0xb, int64(tp.MaxAckDelay), int64(time.Millisecond))
-	chk("ActiveConnectionIDLimit", 0xe, int64(tp.ActiveConnectionIDLimit), 1)
-	chk("MaxDatagramFrameSize", 0x20, int64(tp.MaxDatagramFrameSize), 1)
+	chk("MaxIdleTimeout", 0x1, int64(tp.MaxIdleTimeout), int64(time.Millisecond), 0)
+	chk("MaxUDPPayloadSize", 0x3, int64(tp.MaxUDPPayloadSize), 1, int64(protocol.MaxByteCount))
+	chk("InitialMaxData", 0x4, int64(tp.InitialMaxData), 1, 0)
+	chk("InitialMaxStreamDataBidiLocal", 0x5, int64(tp.InitialMaxStreamDataBidiLocal), 1, 0)
+	chk("InitialMaxStreamDataBidiRemote", 0x6, int64(tp.InitialMaxStreamDataBidiRemote), 1, 0)
+	chk("InitialMaxStreamDataUni", 0x7, int64(tp.InitialMaxStreamDataUni), 1, 0)
+	chk("MaxBidiStreamNum", 0x8, int64(tp.MaxBidiStreamNum), 1, 0)
+	chk("MaxUniStreamNum", 0x9, int64(tp.MaxUniStreamNum), 1, 0)
+	chk("MaxAckDelay", 0xb, int64(tp.MaxAckDelay), int64(time.Millisecond), int64(protocol.DefaultMaxAckDelay))
+	chk("ActiveConnectionIDLimit", 0xe, int64(tp.ActiveConnectionIDLimit), 1, protocol.DefaultActiveConnectionIDLimit)
+	chk("MaxDatagramFrameSize", 0x20, int64(tp.MaxDatagramFrameSize), 1, int64(protocol.InvalidByteCount))
+	wantADE := int64(protocol.DefaultAckDelayExponent)
+	if has[0xa] {
+		wantADE = int64(min(last[0xa], 255))
+	}
+	if int64(tp.AckDelayExponent) != wantADE {
+		o.fail("uspec/populate-view", fmt.Sprintf("AckDelayExponent = %d, the list says %d", tp.AckDelayExponent, wantADE), detail)
+	}
 	if tp.DisableActiveMigration != has[0xc] {
 		o.fail("uspec/populate-view", fmt.Sprintf("DisableActiveMigration = %v", tp.DisableActiveMigration), detail)
 	}
